@@ -103,7 +103,10 @@ def main():
             old = {}
             if (dst / "meta.json").exists():
                 old = json.loads((dst / "meta.json").read_text())
+            # a re-verification with --skip-tests keeps the test-suite facts recorded when the change was confirmed
+            keep = {k: v for k, v in old.get("ran", {}).items() if k.startswith("test") and k not in meta["ran"]}
             old.update(meta)
+            old["ran"].update(keep)
             (dst / "meta.json").write_text(json.dumps(old, indent=1) + "\n")
             print("saved to", dst)
         else:
